@@ -80,6 +80,10 @@ def def_items():
         if name in a_rhs:
             for r in a_rhs[name]:
                 items.append({'ty': 'def', 'name': name, 'type': T, 'prop': "%s = %s" % (lhs, r)})
+    # schematic variables on either side
+    items += [{'ty': 'def', 'name': 'c0', 'type': "bool", 'prop': "c0 <--> ?x"}, {'ty': 'def', 'name': 'c1', 'type': "'a => bool", 'prop': "c1 x <--> (x = ?y)"},
+              {'ty': 'def', 'name': 'c3', 'type': "'a => 'a", 'prop': "c3 x = ?z"}, {'ty': 'def', 'name': 'c1', 'type': "'a => bool", 'prop': "c1 ?x <--> true"},
+              {'ty': 'def', 'name': 'c1', 'type': "'a => bool", 'prop': "c1 x <--> (!u::'a. u = ?w)"}]
     # malformed / overloaded
     items += [{'ty': 'def', 'name': 'plus', 'type': "bool => bool => bool", 'prop': "plus (x::bool) y <--> x | y"},
               {'ty': 'def', 'name': 'c1', 'type': "'a => bool", 'prop': "c1 x --> true"},
